@@ -286,7 +286,7 @@ def gen_lattice(ctx):
     descriptors with handler kind / key kind rotated, thorough = near-honest under every handler kind x key
     kind plus the full descriptor product under rotation."""
     thorough = ctx.tier == "thorough"
-    L = []
+    L = corpus_lines(("W", "E"))          # original failing inputs of the repaired defects run first
     curs = all_curs()
     descs = list(all_descs())
     if not thorough:
@@ -389,10 +389,19 @@ def run_sharded(ctx, exe, lines, shards=12, timeout=1500):
     errs = [None] * shards
     def work(i):
         chunk = lines[i * size:(i + 1) * size]
-        rc, out, err = ctx.run_lines([exe], chunk, timeout=timeout)
-        if rc != 0 or len(out) != len(chunk):
+        t = timeout
+        for attempt in range(3):            # a slow machine is not a violation: retry with a doubled timeout
+            rc, out, err = ctx.run_lines([exe], chunk, timeout=t)
+            if rc == 0 and len(out) == len(chunk):
+                errs[i] = None
+                outs[i] = out
+                return
             errs[i] = "rc=%s lines=%d/%d %s" % (rc, len(out), len(chunk), err[-300:])
-        outs[i] = out
+            outs[i] = out
+            if rc != 124:
+                return
+            ctx.stats["timeouts_retried"] = ctx.stats.get("timeouts_retried", 0) + 1
+            t *= 2
     ts = [threading.Thread(target=work, args=(i,)) for i in range(shards)]
     for t in ts: t.start()
     for t in ts: t.join()
@@ -533,16 +542,12 @@ KIND_KEYS = {
     "str": ["i0", "i1", "length", "x", "zz"],
 }
 SEQ_VALS = ["i1", "i2", "i7", "u", "n", "N", "z", "s1", "o3", "i0"]
-# Descriptors used by def/odef.  Deliberately NOT in the pool (each exclusion is a defect of ANOTHER mechanism that the
-# first lock-step runs surfaced on the unchanged tree; failing inputs in design/C11.md "Defects found outside proxy.go"):
-#   accessor descriptors without a setter function  (array element / converted data property: Reflect.set returns true,
-#                                                     strict assignment does not throw)
-#   get:undefined,set:undefined                      (C11 known finding B; exercised by the dedicated kind `uacc`)
-#   `writable` without `value`                      (object.go _defineOwnProperty does not treat {writable:…} as a data
-#                                                     descriptor: on a non-configurable accessor it returns true and leaves
-#                                                     a hybrid property)
+# Descriptors used by def/odef (the exclusions of the first round -- accessor descriptors without a setter function,
+# get/set both undefined, `writable` without `value` -- are gone: the defects behind them are repaired in /repo:
+# 43d21ca, d72dab1).
 SEQ_DESCS = ["i1,1,1,1,-,-", "i2,-,-,-,-,-", "i1,0,-,-,-,-", "-,-,-,0,-,-", "-,-,0,-,-,-", "-,-,1,1,o1,o2", "i1,0,0,0,-,-",
-             "-,-,-,-,-,-", "i7,-,-,-,-,-", "i2,1,-,-,-,-", "u,0,1,0,-,-", "-,-,-,0,o1,o2", "N,-,-,-,-,-"]
+             "-,-,-,-,-,-", "i7,-,-,-,-,-", "i2,1,-,-,-,-", "u,0,1,0,-,-", "-,-,-,0,o1,o2", "N,-,-,-,-,-",
+             "-,0,-,-,-,-", "-,1,-,-,-,-", "-,-,-,-,o1,-", "-,-,-,1,u,u", "-,-,-,-,-,o2", "-,-,1,-,u,-"]
 VALUE_DESCS = [d for d in SEQ_DESCS if d.split(",")[0] != "-" and d.split(",")[2] == d.split(",")[3] == "-" or d == "i1,1,1,1,-,-"]
 KEY_OPS = ["get", "rget", "has", "hasOwn", "del", "sdel", "ldel", "gopd", "pie"]
 KEYVAL_OPS = ["set", "sset", "lset", "rset"]
@@ -552,18 +557,14 @@ NULLARY_OPS = ["keys", "okeys", "names", "syms", "forin", "entries", "gpo", "ie"
 PROTO_OPS = ["spo", "ospo"]
 PRIMS = {"gpo", "spo", "ie", "pe", "gopd", "def", "has", "rget", "rset", "del", "keys"}
 
-# per target kind: restrictions of the alphabets (see design/C11.md for the failing input behind each one)
+# per target kind: restrictions of the alphabets that remain because the defect behind them STILL reproduces on /repo HEAD
+# (failing inputs in design/C11.md §4; all are defects of the target's own entry points, not of proxy.go)
 KIND_CFG = {
-    # typed array: defineProperty with a descriptor lacking `value` dereferences nil in typedarrays.go (host panic)
-    "ta": {"descs": VALUE_DESCS},
     # String object: integer keys >= length and defineProperty on index keys behave differently through the Idx and Str
     # entry points of stringObject; JSON.stringify / freeze depend on the [[StringData]] slot or on those entry points
     "str": {"desc_keys": ["x", "zz"], "drop": ["json", "freeze", "seal"]},
     # mapped arguments object: seal + foreign-receiver set unseals; enumerable:false redefinition ignored by Object.keys
     "margs": {"descs": VALUE_DESCS, "drop": ["freeze", "seal", "isFrozen", "isSealed"]},
-    "args": {"descs": VALUE_DESCS},
-    # the object whose accessor has neither getter nor setter: only reads (known finding B shows on gopd)
-    "uacc": {"only": ["gopd", "get", "rget", "has", "hasOwn", "keys", "okeys", "names", "gpo", "ie"]},
 }
 KIND_KEYS["uacc"] = ["q", "x", "zz"]
 
@@ -614,7 +615,7 @@ def gen_seqs(ctx):
                     lines.append("Q %s %d %s %s" % (kind, layers, hk, ";".join(ops)))
     return lines
 
-def corpus_lines():
+def corpus_lines(modes=("Q",)):
     d = os.path.join(ROOT, "corpus", PROP)
     out = []
     if os.path.isdir(d):
@@ -622,7 +623,7 @@ def corpus_lines():
             if fn.endswith(".txt"):
                 for l in open(os.path.join(d, fn)):
                     l = l.strip()
-                    if l and not l.startswith("#"):
+                    if l and not l.startswith("#") and l.split()[0] in modes:
                         out.append(l)
     return out
 
@@ -758,7 +759,7 @@ def lockstep(ctx, harness, model):
     lines = corpus_lines() + gen_seqs(ctx)
     for kind in KIND_KEYS:
         for hk in "JG":
-            if kind not in ("margs", "uacc"):
+            if kind not in ("margs",):
                 lines.append("Q revoked %s %s -" % (kind, hk))
     t0 = time.time()
     out, err = run_sharded(ctx, harness, lines, shards=12)
@@ -890,7 +891,7 @@ def lockstep(ctx, harness, model):
 # main
 # ------------------------------------------------------------------------------------------------
 
-THEOREMS_MIN = 40
+THEOREMS_MIN = 44
 
 def build(ctx):
     regen_ok = ctx.regen()
